@@ -264,9 +264,10 @@ pub fn run_case(case: &Case) -> Outcome {
                         }
                         Err(e) => {
                             out.result = e.to_string();
-                            if failed.is_empty() {
+                            if failed.is_empty() && !p.keys.optional() {
                                 out.violation = Some((Class::RoundTrip, format!("deserializing the output presented as {p:?} fails: {e} (output: {})", rec.show())));
                             }
+                            // keys as bytes / positions: an impl may refuse them; what it must not do is accept them and restore something else
                         }
                     }
                 }
@@ -391,6 +392,12 @@ fn presentations(r: &mut Rng, is_f32: bool, all: bool) -> Vec<Presentation> {
             }
         }
     }
+    // keys as bytes / as field positions (what serde's derive accepts besides strings; packed binary formats)
+    for keys in [KeyForm::Bytes, KeyForm::Index] {
+        for (order, hr) in [(Order::Written, true), (Order::Reversed, true), (Order::Written, false), (Order::Permuted(r.next()), false)] {
+            v.push(Presentation { shape: Shape::Map, order, keys, f32_as_f64: false, human_readable: hr });
+        }
+    }
     // hint-driven presentation (serde's flatten buffer, property-lookup formats)
     for keys in [KeyForm::Str, KeyForm::Owned, KeyForm::Borrowed] {
         v.push(Presentation { shape: Shape::MapByHint, order: Order::Written, keys, f32_as_f64: false, human_readable: true });
@@ -408,7 +415,8 @@ fn presentations(r: &mut Rng, is_f32: bool, all: bool) -> Vec<Presentation> {
     // quick tier: both sequence forms, the written order, and two seeded picks of the rest
     let bin_seq = v.iter().position(|p| !p.human_readable && p.shape == Shape::Seq).unwrap();
     let by_hint = v.iter().position(|p| p.shape == Shape::MapByHint).unwrap();
-    let mut pick = vec![v[0], v[1 + r.below(3)], v[bin_seq], v[by_hint + r.below(3)]];
+    let opt = v.iter().position(|p| p.keys.optional()).unwrap();
+    let mut pick = vec![v[0], v[1 + r.below(3)], v[bin_seq], v[by_hint + r.below(3)], v[opt + r.below(8)]];
     for _ in 0..2 {
         pick.push(v[r.below(v.len())]);
     }
@@ -500,7 +508,7 @@ fn op_tag(op: &Op) -> u64 {
         Op::Ser(_, hr) => 1 + *hr as u64,
         Op::De(p, _) => {
             10 + match p.shape { Shape::Map => 0, Shape::Seq => 1, Shape::MapByHint => 128 } + 2 * match p.order { Order::Written => 0, Order::Reversed => 1, Order::Sorted => 2, Order::Permuted(_) => 3 }
-                + 8 * match p.keys { KeyForm::Str => 0, KeyForm::Owned => 1, KeyForm::Borrowed => 2 } + 32 * p.f32_as_f64 as u64 + 64 * p.human_readable as u64
+                + 8 * match p.keys { KeyForm::Str => 0, KeyForm::Owned => 1, KeyForm::Borrowed => 2, KeyForm::Bytes => 256, KeyForm::Index => 512 } + 32 * p.f32_as_f64 as u64 + 64 * p.human_readable as u64
         }
         Op::Json(p) => 100 + *p as u64,
         Op::JsonWriter { one_byte, .. } => 200 + *one_byte as u64,
@@ -1063,8 +1071,8 @@ fn main() {
     let wall = t0.elapsed().as_secs_f64();
     let rule = "one case = (type, seeded value, operation with presentation and fault plan) executed against the real derived Serialize/Deserialize code; \
 for every value: the fault-free serialization (J1), EVERY single-fault position on the way out (reject-once and reject-from at each serializer call), every presentation of the recorded output \
-fault-free (sequence form; map form restricted to and ordered by the `fields` hint of deserialize_struct; map form in written / reversed / key-sorted / two seeded per-struct permutations x transient / owned / borrowed keys; f32 parts also as f64; each as a format answering is_human_readable() true and, for the binary-format shapes, false), EVERY single-fault position on the way in \
-under the swept presentations (quick: 6 per value; thorough: all), seeded multi-fault plans, and the serde_json tier (5 round-trip paths, writer failing at its k-th write, output truncated to k bytes). \
+fault-free (sequence form; map form restricted to and ordered by the `fields` hint of deserialize_struct; map form in written / reversed / key-sorted / two seeded per-struct permutations x transient / owned / borrowed keys; keys as bytes or as field positions (an impl may refuse these: Err tolerated, Ok must restore exactly); f32 parts also as f64; each as a format answering is_human_readable() true and, for the binary-format shapes, false), EVERY single-fault position on the way in \
+under the swept presentations (quick: 7 per value; thorough: all), seeded multi-fault plans, and the serde_json tier (5 round-trip paths, writer failing at its k-th write, output truncated to k bytes). \
 The thorough tier adds EVERY pair of rejected serializer calls for histories of at most 30 calls. distinct_nontrivial = number of distinct histories (type, operation, presentation, per-call kind/name/verdict, return) among cases in which at least one injected fault actually fired";
     let ev = serde_json::json!({
         "property_id": "C16",
@@ -1093,7 +1101,7 @@ The thorough tier adds EVERY pair of rejected serializer calls for histories of 
             "determinism_check": { "values": det_values, "cases": d1.cases, "thread_partitions": [threads, 3], "digest_equal": deterministic, "digest": format!("{:016x}", d1.digest) },
             "real_components": ["the expansions of #[derive(Serialize, Deserialize)] on Dual, Dual2, Dual3, HyperDual, HyperHyperDual inside num-dual (skipped marker, recursion through nested parts)", "serde's f32/f64/PhantomData impls and MapAccess/SeqAccess/identifier plumbing", "serde_json (end-to-end tier only)"],
             "stubbed_components": ["the data format: Serializer (ser.rs) and Deserializer (de.rs) under the simulator's presentations and fault plans", "io::Write behind serde_json::to_writer"],
-            "invariants": ["J1 stored form: exactly the documented part names, each once, stored bits, nothing else", "J2 round trip under every legal presentation", "J3 a rejected serializer call implies Err", "J4 a failed struct/value/element delivery implies Err; Ok after a failed key probe only with the stored number", "J5 no spurious error or panic", "J6 serde_json end to end (values the path represents exactly), key set of the JSON text"],
+            "invariants": ["J1 stored form: exactly the documented part names, each once, stored bits, nothing else; the field count announced to serialize_struct equals the fields written", "J2 round trip under every legal presentation", "J3 a rejected serializer call implies Err", "J4 a failed struct/value/element delivery implies Err; Ok after a failed key probe only with the stored number", "J5 no spurious error or panic", "J6 serde_json end to end (values the path represents exactly), key set of the JSON text"],
             "known_findings_hit": known_hits,
             "unlisted_finding_keys": unknown_keys,
             "exhaustive": false
@@ -1102,7 +1110,7 @@ The thorough tier adds EVERY pair of rejected serializer calls for histories of 
             "values are sampled (seeded); fault positions are swept exhaustively only for single faults per value and presentation",
             "finite part values only (the property's quantifier)",
             "part names are taken from the property text and the crate documentation of the pinned commit; field order and the struct's name are not part of C16 and are not compared",
-            "presentations not used, because a hand-written impl may legitimately not support them: keys as bytes or as u64 indices, unknown or duplicated fields, silently missing fields",
+            "keys as bytes or as field positions are presented, but an impl may refuse them (Err tolerated; Ok must restore the number exactly); not presented at all: unknown or duplicated fields, silently missing fields",
             "a JSON path is asserted only for numbers all of whose leaves that path round-trips exactly as plain floats"
         ],
         "wall_s": wall,
